@@ -908,6 +908,9 @@ class ArrayType(Type):
                  type_name):
         super(ArrayType, self).__init__(name, type_name)
         self.element_type = element_type
+        self.set_size_range(minimum, maximum, has_extension_marker)
+
+    def set_size_range(self, minimum, maximum, has_extension_marker):
         self.minimum = minimum
         self.maximum = maximum
         self.has_extension_marker = has_extension_marker
@@ -1133,11 +1136,14 @@ class BitString(Type):
                  maximum,
                  has_extension_marker):
         super(BitString, self).__init__(name, 'BIT STRING')
+        self.named_bits = named_bits
+        self.has_named_bits = named_bits is not None
+        self.set_size_range(minimum, maximum, has_extension_marker)
+
+    def set_size_range(self, minimum, maximum, has_extension_marker):
         self.minimum = minimum
         self.maximum = maximum
         self.has_extension_marker = has_extension_marker
-        self.named_bits = named_bits
-        self.has_named_bits = named_bits is not None
 
         if is_unbound(minimum, maximum):
             self.number_of_bits = None
